@@ -114,7 +114,7 @@ fn gen_inherent_impl_items(
             } = &item;
 
             syn::parse_quote! {
-                #(#attrs),*
+                #(#attrs)*
                 const #ident: #ty #generics;
             }
         }
@@ -129,7 +129,7 @@ fn gen_inherent_impl_items(
             let (impl_generics, _, where_clause) = generics.split_for_impl();
 
             syn::parse_quote! {
-                #(#attrs),*
+                #(#attrs)*
                 type #ident #impl_generics #where_clause;
             }
         }
@@ -137,7 +137,7 @@ fn gen_inherent_impl_items(
             let syn::ImplItemFn { attrs, sig, .. } = &item;
 
             syn::parse_quote! {
-                #(#attrs),*
+                #(#attrs)*
                 #sig;
             }
         }
